@@ -27,7 +27,8 @@ Definition d_op (s : sexp) : bool * op :=
    | 3%Z => OLowLevel (d_opt d_nat (d_nth s 2)) (d_file (d_nth s 3))
    | 4%Z => OFormatName (d_str (d_nth s 2)) (d_Z (d_nth s 3)) (d_str (d_nth s 4))
    | 5%Z => OBstRun (d_list d_nkey (d_nth s 2))
-   | _ => OSetStrict (d_bool (d_nth s 2))
+   | 6%Z => OSetStrict (d_bool (d_nth s 2))
+   | _ => OOpaque (d_N (d_nth s 2))
    end).
 
 Definition d_err (s : sexp) : err := (d_N (d_nth s 0), d_str (d_nth s 1)).
@@ -97,7 +98,7 @@ Definition run_memo (a : sexp) : sexp :=
 
 (* ---- fn 2: a history of API calls from the initial state ---- *)
 Definition self_contained (o : op) : bool :=
-  match o with OParse _ _ | OFormatName _ _ _ | OBstRun _ => true | _ => false end.
+  match o with OParse _ _ | OFormatName _ _ _ | OBstRun _ | OLowLevel None _ | OOpaque _ => true | _ => false end.
 
 (* each self-contained call once more from the initial state (same strict flag): what a fresh
    interpreter would return *)
